@@ -21,8 +21,8 @@ def bounds(tier):
 
 
 def configs(tier, seed):
-    out = [dict(n=n, root=None, timeout=400 if tier == "quick" else 1200) for n in (1, 2)]
-    out += [dict(n=3, root=r, timeout=400 if tier == "quick" else 1200) for r in range(4)]
+    out = [dict(n=n, root=None, timeout=900 if tier == "quick" else 1800) for n in (1, 2)]
+    out += [dict(n=3, root=r, timeout=900 if tier == "quick" else 1800) for r in range(4)]
     if tier == "thorough":
         out += [dict(n=4, root=r, timeout=3000) for r in range(5)]
     return out
